@@ -5,10 +5,10 @@
    STRING TOO LONG and otherwise yields a value of the target type (C06_store_typed: nothing else is ever stored);
    compiled expression code computes what the reference semantics prescribes (C01_compiled_expression_correct).
    Proved (Proofs/ParseExpr.v): the expression parser builds the tree the table prescribes -- for every expression tree over
-   identifiers, literals, unary minus, NOT and the binary operators, at every depth, the parser run on the tokens of the
+   identifiers, literals, array elements / function calls (any number of arguments), unary minus, NOT and the binary operators, at every depth, the parser run on the tokens of the
    tree's minimally parenthesised rendering returns that tree (columns aside) and stops in front of what follows
    (C02_parser_builds_the_tree); more fuel never changes a result (C02_fuel_monotone).
-   NOT proved: array / function-call arguments inside expressions, unary plus, numeric literal typing, the numeric
+   NOT proved: unary plus (it builds no node), DEF FN parameter renaming, numeric literal typing, the numeric
    functions; that the model's fuel formula suffices (the Rust parser has no fuel; differential). *)
 From BL Require Import Base.Prelude Base.Floats Mach.Val Mach.Ops Mach.Var Lang.Token Lang.Parse Proofs.Promote.
 Local Open Scope N_scope.
@@ -94,8 +94,8 @@ Theorem C02_fuel_monotone : forall f,
 Proof. exact fuel_mono. Qed.
 Print Assumptions C02_fuel_monotone.
 
-(* the invariant of precedence climbing, for every expression tree over identifiers, literals, unary minus, NOT and the
-   eighteen binary operators, at every nesting depth: the parser in front of the tokens of x (operands that bind at least
+(* the invariant of precedence climbing, for every expression tree over identifiers, literals, array elements / calls,
+   unary minus, NOT and the eighteen binary operators, at every nesting depth: the parser in front of the tokens of x (operands that bind at least
    as strongly as the position demands) behaves like its loop holding the tree of x *)
 Theorem C02_precedence_climbing : forall x, wf x ->
   forall p n rest st, p < n -> n <= eprec x -> lead_le n rest -> rep st (raw x ++ rest) -> like_climb p st x rest.
@@ -123,6 +123,9 @@ Theorem C02_rendering_examples :
   /\ Lex.lex (s2l "NOT A=B") = Ok (None, TOp ONot :: TWs 1 :: raw (ABin OEq idA idB))
   /\ Lex.lex (s2l "A+B*C") = Ok (None, raw (ABin OPlus idA (ABin OMul idB idC)))
   /\ Lex.lex (s2l "(A+B)*C") = Ok (None, raw (ABin OMul (ABin OPlus idA idB) idC))
-  /\ wf (ABin OMinus (ABin OMinus idA idB) idC) /\ wf (ANeg (ABin OCaret two two)).
+  /\ Lex.lex (s2l "A(2,B+2)*FNX(C)-D()") = Ok (None, raw (ABin OMinus (ABin OMul (ACall (IPlain [65]) [two; ABin OPlus idB two]) (ACall (IPlain [70; 78; 88]) [idC]))
+                                                                             (ACall (IPlain [68]) [])))
+  /\ wf (ABin OMinus (ABin OMinus idA idB) idC) /\ wf (ANeg (ABin OCaret two two))
+  /\ wf (ABin OMul (ACall (IPlain [65]) [two; ABin OPlus idB two]) (ACall (IPlain [70; 78; 88]) [idC])).
 Proof. exact renderings. Qed.
 Print Assumptions C02_rendering_examples.
